@@ -28,6 +28,8 @@
       later `register` on the copy succeeds and extends it.
     * `decorator_form_unpicklable` — if a reachable function's qualified name is bound to another
       object (the decorator form rebinds it to the Dataset), `encode` fails: finding F12.
+    * `explicit_form_picklable` — conversely, when every function name still denotes the function
+      (`d = dataset(f)`), `encode` cannot fail.
   Proof method: induction on the fuel of the encoding traversal (`PickleLemmas.encFld_spec`,
   `encFld_dec`), pigeonhole for the sufficiency of the fuel (`encFld_total`).
 -/
